@@ -23,6 +23,10 @@ func main() {
 		code := cmdCheck(os.Args[2:])
 		cleanupScratch()
 		os.Exit(code)
+	case "lemmas":
+		code := cmdLemmas(os.Args[2:])
+		cleanupScratch()
+		os.Exit(code)
 	case "replay":
 		code := cmdReplay(os.Args[2:])
 		cleanupScratch()
